@@ -38,6 +38,9 @@ RULE = ("sequences of 0-7 header lines over the pragma grammar: start symbol, ke
         "header's own). "
         "non-trivial: at least two records kept, or a diagnostic reported, or a mutation applied; distinct by case hash")
 ASSUMPTIONS = [
+    "documented layouts: a (version, annotation) pair of the pinned spec (harness/spec_layouts.json) must name its scheme "
+    "and pass the header checks; a version outside it (other than no-version) must be diagnosed - extra schemes registered "
+    "by a deployment would need this oracle clause relaxed",
     "lib/Str.v is_space equals str.isspace on every code point (checked by an exhaustive sweep each run)",
     "the scheme registry ((version, annotation) pairs, which one is NoRestrictionsScheme) is read from all_schemes()",
     "fasta_index arguments of from_reader/from_defaults are not modelled",
@@ -66,6 +69,18 @@ BOUNDARY = [
     ["#version gdc-1.0.0 "], ["#Version gdc-1.0.0"], ["#version  gdc-1.0.0"], ["#sort.order  Coordinate"],
     ["#sort.order Coordinate "], ["#sort.order Coordinate\x00"], ["#k v", "x", "#j w"], ["x", "#k v"],
 ]
+
+
+def _documented_cases():
+    out = []
+    for (v, a) in R.pinned_pairs():
+        lines = ["#version " + v] + ([] if a == v else ["#annotation.spec " + a])
+        out.append({"kind": "header", "stream": "documented", "mode": "Silent", "lines": lines})
+    for v in ("gdc-1.0.1", "gdc-2.0.0", "gdc-1.0.0-public", "gdc-1.0.1-protected"):
+        out.append({"kind": "header", "stream": "documented", "mode": "Silent", "lines": ["#version " + v]})
+        out.append({"kind": "header", "stream": "documented", "mode": "Silent",
+                    "lines": ["#version " + v, "#annotation.spec gdc-1.0.1-protected"]})
+    return out
 
 
 def _valid(rng):
@@ -279,6 +294,7 @@ def generate(rng, n):
     lr_share = 3 if (R.focused("util.py") or R.focused_fn("from_line_reader")) else 1
     args_share = 3 if R.focused_fn("from_reader", "from_defaults", "MafHeaderSortOrderRecord", "MafHeaderContigRecord",
                                    "scheme_header_lines") else 1
+    out += _documented_cases()
     for _ in range(max(40, n // 5) * ops_share // (2 if ops_share > 1 else 1)):
         out.append(_ops_case(rng))
     for _ in range(max(30, n // 10) * lr_share):
@@ -570,6 +586,19 @@ def oracle(case, obs):
     exp_contigs = d["contigs"].split(",") if "contigs" in d else None
     if h["contigs"] != exp_contigs:
         out.append("contigs-accessor %r" % (h["contigs"],))
+    # documented layouts (the pinned spec, not the library's schema files): the pragmas of a documented
+    # (version, annotation) pair name that scheme and pass the header-level checks
+    v, a = d.get("version"), d.get("annotation.spec")
+    pinned = R.pinned_pairs()
+    if v is not None and ((v, a) in pinned and a != v):
+        if h["scheme"] != ["ok", [v, a, False]]:
+            out.append("documented-layout-not-found %r scheme() gives %r" % ((v, a), h["scheme"]))
+        if any(e[0] in (6, 7, 8, 9) for e in h["errs"]):
+            out.append("documented-layout-diagnosed %r %r" % ((v, a), [e for e in h["errs"] if e[0] in (6, 7, 8, 9)]))
+    if v is not None and a is None and (v, v) in pinned and h["scheme"] != ["ok", [v, v, False]]:
+        out.append("documented-basic-layout-not-found %r" % (v,))
+    if v is not None and v not in [pv for (pv, _) in pinned] and v != "no-version" and not any(e[0] == 7 for e in h["errs"]):
+        out.append("undocumented-version-not-diagnosed %r" % (v,))
     exp_order = _expected_value("sort.order", d["sort.order"], kept)[1:] if "sort.order" in d else ["Unsorted", []]
     if h["order"] != exp_order:
         out.append("sort-order-accessor %r expected %r" % (h["order"], exp_order))
